@@ -46,8 +46,11 @@ MC_OBJ_KNOB = dict(module="ObjHist", name="objhist_knob_CleanLoad", expect="viol
                    what="sanity: if a load keeps what an earlier load left, TLC must find a use that sees it")
 
 
+GEN_EAP_C12 = dict(module="Gen_Eap", name="eap12", constants=dict(Kinds='{"unknown", "eap"}'))
+
+
 def run_c03(ctx, C):
-    codec_common(ctx, C, [GEN_CODEC, gen_obj("msg", "C03")], [DRV_CODEC], mcs=[MC_OBJ, MC_OBJ_KNOB])
+    codec_common(ctx, C, [GEN_CODEC, gen_obj("msg", "C03"), gen_obj("eap", "C03"), gen_akahist_wire("C03")], [DRV_CODEC], mcs=[MC_OBJ, MC_OBJ_KNOB])
     C.stage_s3(ctx)
 
 
@@ -65,7 +68,7 @@ def run_c05(ctx, C):
 
 
 def run_c12(ctx, C):
-    codec_common(ctx, C, [GEN_CODEC, GEN_LIBERTY, GEN_CURSOR], [DRV_CODEC, dict(DRV_BYTES, n_quick=1500, n_thorough=60000)])
+    codec_common(ctx, C, [GEN_CODEC, GEN_LIBERTY, GEN_CURSOR, GEN_EAP_C12, gen_obj("eap", "C12"), gen_akahist_wire("C12")], [DRV_CODEC, dict(DRV_BYTES, n_quick=1500, n_thorough=60000)])
 
 
 def run_c13(ctx, C):
@@ -232,8 +235,12 @@ MC_AKA_KNOB = dict(module="AkaSession", name="akasession_knob_MacOverWire", expe
                    invariants=("ReceiverAgrees", "Sensitive"), what="sanity: a receiver that re-serialises before computing the code rejects honest packets in another order")
 
 
-GEN_AKAHIST = dict(module="Gen_AkaHist", name="akahist", constants=dict(MaxOps=lambda ctx: 5 if ctx.thorough else 4, FromWire=False), trace=False)
-GEN_AKAHIST_W = dict(module="Gen_AkaHist", name="akahist_wire", constants=dict(MaxOps=lambda ctx: 4 if ctx.thorough else 3, FromWire=True), trace=False)
+GEN_AKAHIST = dict(module="Gen_AkaHist", name="akahist", constants=dict(MaxOps=lambda ctx: 5 if ctx.thorough else 4, FromWire=False, PropId='"C14"'), trace=False)
+GEN_AKAHIST_W = dict(module="Gen_AkaHist", name="akahist_wire", constants=dict(MaxOps=lambda ctx: 4 if ctx.thorough else 3, FromWire=True, PropId='"C14"'), trace=False)
+
+
+def gen_akahist_wire(prop):
+    return dict(module="Gen_AkaHist", name="akahist_wire", constants=dict(MaxOps=lambda ctx: 4 if ctx.thorough else 3, FromWire=True, PropId='"%s"' % prop), trace=False)
 
 
 def run_c14(ctx, C):
@@ -242,7 +249,7 @@ def run_c14(ctx, C):
 
 
 def run_c15(ctx, C):
-    codec_common(ctx, C, [GEN_EAP, GEN_AKAHIST, GEN_AKAHIST_W], [], mcs=[MC_AKA, MC_AKA2, MC_AKA_KNOB], traces=())
+    codec_common(ctx, C, [GEN_EAP, GEN_AKAHIST, GEN_AKAHIST_W, gen_obj("eap", "C15")], [], mcs=[MC_AKA, MC_AKA2, MC_AKA_KNOB], traces=())
 
 
 def run_c16(ctx, C):
